@@ -56,6 +56,10 @@ type Config struct {
 	DC             string
 	HostDCs        map[int]string // data center per host index (default: DC)
 	SlowLocal      time.Duration  // system.local is answered this much later than it could be (system.peers is not)
+	HostAdvertised map[int]string // the rpc_address a host reports for itself in system.local (default: the address it listens on)
+	HostRelease    map[int]string // release_version per host index (default: ReleaseVersion)
+	HostMaxVersion map[int]int32  // hosts that are nodes of an older release from the start (Host.MaxVersion)
+	ContactHosts   []int          // host indexes handed to the proxy as contact points, in order (default: host 1)
 	NeverCompress  bool           // never compress responses even when compression was negotiated
 	Lenient        bool           // do not enforce version/compression fidelity rules
 	Log            *mon.Log
@@ -207,6 +211,7 @@ func New(cfg Config) (*Cluster, error) {
 		ok := true
 		for i := 1; i <= cfg.Hosts; i++ {
 			h := &Host{Idx: i, IP: fmt.Sprintf("%s%d", c.Prefix, i), c: c, conns: map[int]*Conn{}, prepared: map[string]string{}}
+			h.MaxVersion = cfg.HostMaxVersion[i]
 			ln, err := net.Listen("tcp", fmt.Sprintf("%s:%d", h.IP, c.Port))
 			if err != nil {
 				lastErr = err
@@ -235,6 +240,25 @@ func New(cfg Config) (*Cluster, error) {
 }
 
 func (c *Cluster) ContactPoint() string { return c.Hosts[0].IP }
+
+// ContactPoints returns the addresses to hand to the proxy as contact points (Config.ContactHosts; default: host 1).
+func (c *Cluster) ContactPoints() []string {
+	if len(c.cfg.ContactHosts) == 0 {
+		return []string{c.ContactPoint()}
+	}
+	var out []string
+	for _, i := range c.cfg.ContactHosts {
+		out = append(out, c.HostIP(i))
+	}
+	return out
+}
+
+func (c *Cluster) releaseOf(host int) string {
+	if v, ok := c.cfg.HostRelease[host]; ok {
+		return v
+	}
+	return c.cfg.ReleaseVersion
+}
 func (c *Cluster) HostIP(i int) string  { return fmt.Sprintf("%s%d", c.Prefix, i) }
 
 // HostIdxOfAddr maps "127.a.b.i:port" (or the bare IP) back to the host index (0 if foreign).
@@ -1168,8 +1192,12 @@ func (c *Cluster) systemRows(x *Conn, table string) message.Message {
 			{Keyspace: "system", Table: "local", Name: "host_id", Type: datatype.Uuid},
 		}
 		u := hostUUID(x.Host.Idx)
-		row := message.Row{[]byte("local"), net.ParseIP(x.Host.IP).To4(), []byte(c.dcOf(x.Host.Idx)), []byte("rack1"),
-			encSet(fmt.Sprintf("%d", x.Host.Idx*1000)), []byte(c.cfg.ReleaseVersion), []byte("org.apache.cassandra.dht.Murmur3Partitioner"),
+		self := x.Host.IP
+		if a, ok := c.cfg.HostAdvertised[x.Host.Idx]; ok {
+			self = a
+		}
+		row := message.Row{[]byte("local"), net.ParseIP(self).To4(), []byte(c.dcOf(x.Host.Idx)), []byte("rack1"),
+			encSet(fmt.Sprintf("%d", x.Host.Idx*1000)), []byte(c.releaseOf(x.Host.Idx)), []byte("org.apache.cassandra.dht.Murmur3Partitioner"),
 			[]byte("fakecass"), []byte("3.4.5"), schema[:], u[:]}
 		if dse {
 			cols = append(cols, &message.ColumnMetadata{Keyspace: "system", Table: "local", Name: "dse_version", Type: datatype.Varchar})
@@ -1195,7 +1223,7 @@ func (c *Cluster) systemRows(x *Conn, table string) message.Message {
 		u := hostUUID(i)
 		ip := net.ParseIP(c.HostIP(i)).To4()
 		rows = append(rows, message.Row{ip, ip, []byte(c.dcOf(i)), []byte("rack1"), encSet(fmt.Sprintf("%d", i*1000)),
-			[]byte(c.cfg.ReleaseVersion), schema[:], u[:]})
+			[]byte(c.releaseOf(i)), schema[:], u[:]})
 	}
 	return &message.RowsResult{Metadata: &message.RowsMetadata{ColumnCount: int32(len(cols)), Columns: cols}, Data: rows}
 }
